@@ -182,3 +182,26 @@ Example C17_nonvacuous_history :
   get (fst (run_follow string H R1 "a" h)) "c" = None /\
   s_step string H R1 (SPack "z" del_bytes) = (R1, false).
 Proof. vm_compute. repeat split. Qed.
+
+(** The plain specification tree that the overlay refines (C01): one specification step
+    keeps the value of every dataset it is not aimed at, and copy / move deliver the source
+    value at the destination.  Together with C01's refinement theorem this carries
+    [C17_bytes_preserved] from the flat transport model over to the overlay model. *)
+From stdpp Require Import gmap.
+Import IH5.Overlay.
+
+Theorem C17_tree_step_keeps : forall (T : tree) o p e,
+  p <> [] -> is_node_path p = true -> T !! p = Some e -> BytesOverlay.t_keeps p o ->
+  (t_step T o).1 !! p = Some e.
+Proof. exact BytesOverlay.t_step_keeps. Qed.
+Print Assumptions C17_tree_step_keeps.
+
+Theorem C17_tree_copy_value : forall (T T' : tree) s d e,
+  t_copy T s d = Some T' -> T !! s = Some e -> T' !! d = Some e.
+Proof. exact BytesOverlay.t_copy_value. Qed.
+Print Assumptions C17_tree_copy_value.
+
+Theorem C17_tree_move_value : forall (T T' : tree) s d e,
+  t_move T s d = Some T' -> T !! s = Some e -> T' !! d = Some e /\ T' !! s = None.
+Proof. exact BytesOverlay.t_move_value. Qed.
+Print Assumptions C17_tree_move_value.
